@@ -12,7 +12,7 @@
 // blank line + indented line pair that continues a definition / list item / note (one composite kind keeps 4-line structures inside L=3).
 static const char * K[] = {"ztext [^a] [#a] [?a] [>a] [a][]\n", "    code\n", "\tcode\n", "* zitem\n", "1. zitem\n", "> zquote\n", "```\n", "````\n", "`````\n", "```perl\n",
 	"a | b\n", "--|--\n", ": def\n", "key: value\n", "<div>\n", "<span>x</span>\n", "\n", "***\n", "===\n", "---\n", "# zhead\n", "[a]: http://x\n",
-	"[^a]: znote\n", "[#a]: zcite\n", "[?a]: zgloss\n", "[>a]: abbr\n", "{{TOC}}\n", "<!--\n", "-->\n", "  ztext\n", "+\n", "|\n", "\n    zmore\n", "* key: zitem\n", "> key: zquote\n",
+	"[^a]: znote\n", "[#a]: zcite\n", "[?a]: zgloss\n", "[>a]: abbr\n", "{{TOC}}\n", "<!--\n", "-->\n", "  ztext \\\\(a\\\\) $b$\n", "+\n", "|\n", "\n    zmore\n", "* key: zitem\n", "> key: zquote\n",
 	// a reference definition as the indented continuation of whatever precedes it (list item, definition, note)
 	"\n    [^a]: znote\n", "\n    [a]: http://y\n",
 	// a note that is called only from inside another note
@@ -134,6 +134,11 @@ int main(int argc, char ** argv) {
 			std::string unit = std::string(K[idx % NK]) + K[idx / NK], doc;
 			for (int i = 0; i < reps; i++) doc += unit;
 			g_need = needed_words(std::vector<int>{(int)(idx % NK), (int)(idx / NK)});
+			// a closing paragraph with nested inline structure: whatever the repeated blocks did to counters of the parser or of a writer, the
+			// end of a long document is still rendered in full (not claimed behind raw HTML / comments, which some writers omit by design)
+			int ka = (int)(idx % NK), kb = (int)(idx / NK);
+			auto raw = [](int k) { return k == 14 || k == 15 || k == 27 || k == 28; };
+			if (!raw(ka) && !raw(kb)) { doc += "\n\nzlast *zemph **zstrong** [zlink](http://x/)* end\n"; g_need.push_back("zlast"); g_need.push_back("zemph"); g_need.push_back("zstrong"); g_need.push_back("zlink"); }
 			run_doc(doc, 2 * reps, false);
 		}
 		dump(); return 0;
